@@ -491,3 +491,397 @@ func c01ArrayVariable(c *Ctx, rule string) {
 		c.R.Break(rule + ": no success exit of the array case found")
 	}
 }
+
+// c08ExecHandsBack: C08-R8.  The messages an action emits are collected in the Execution that the emit callback
+// captured; they reach the step only if that very Execution is what Exec returns on success.  Every successful return
+// of Interpreter.Exec returns the value the callback appends to.
+func c08ExecHandsBack(c *Ctx, rule string) {
+	exec := c.P.Func("interpreters/ecmascript", "Interpreter", "Exec")
+	addEmitted := c.P.Func("core", "Events", "AddEmitted")
+	if exec == nil || addEmitted == nil {
+		c.R.Break(rule + ": Interpreter.Exec or Events.AddEmitted not found")
+		return
+	}
+	// the captured execution: what the free variable of the emitting literal is bound to in Exec
+	var captured []ssa.Value
+	var trace func(v ssa.Value, f *ssa.Function, depth int)
+	trace = func(v ssa.Value, f *ssa.Function, depth int) {
+		if depth > 10 {
+			return
+		}
+		switch x := v.(type) {
+		case *ssa.FieldAddr:
+			trace(x.X, f, depth+1)
+		case *ssa.UnOp:
+			trace(x.X, f, depth+1)
+		case *ssa.FreeVar:
+			for i, fv := range f.FreeVars {
+				if fv != x || f.Parent() == nil {
+					continue
+				}
+				ssau.Instrs(f.Parent(), func(in ssa.Instruction) {
+					if mc, ok := in.(*ssa.MakeClosure); ok && mc.Fn == ssa.Value(f) && i < len(mc.Bindings) {
+						if f.Parent() == exec {
+							captured = append(captured, mc.Bindings[i])
+						} else {
+							trace(mc.Bindings[i], f.Parent(), depth+1)
+						}
+					}
+				})
+			}
+		default:
+			if f == exec {
+				captured = append(captured, v)
+			}
+		}
+	}
+	for _, f := range ssau.WithAnon(exec) {
+		ssau.Instrs(f, func(in ssa.Instruction) {
+			if ci, ok := in.(ssa.CallInstruction); ok && ci.Common().StaticCallee() == addEmitted && len(ci.Common().Args) > 0 {
+				trace(ci.Common().Args[0], f, 0)
+			}
+		})
+	}
+	if len(captured) == 0 {
+		c.R.Break(rule + ": the Execution that the emit callback appends to was not found in Exec")
+		return
+	}
+	same := func(v ssa.Value) bool {
+		for _, cv := range captured {
+			if v == cv {
+				return true
+			}
+			// through the variable's cell
+			if ld, ok := v.(*ssa.UnOp); ok && ld.X == cv {
+				return true
+			}
+			if ld, ok := cv.(*ssa.UnOp); ok {
+				if l2, ok2 := v.(*ssa.UnOp); ok2 && l2.X == ld.X {
+					return true
+				}
+			}
+		}
+		return false
+	}
+	n := 0
+	for _, b := range exec.Blocks {
+		ret, ok := b.Instrs[len(b.Instrs)-1].(*ssa.Return)
+		if !ok || len(ret.Results) != 2 || !provablyNil(ret.Results[1], b) {
+			continue
+		}
+		n++
+		okR := true
+		for _, d := range phiEdgesWithBlocks(ret.Results[0], b) {
+			if !same(d.v) {
+				okR = false
+			}
+		}
+		c.R.Check(okR, rule, fmt.Sprintf("Exec: successful return #%d hands back the execution that collected the emitted messages", n), c.pos(ret), "returns the Execution the emit callback captured", "a successful return of Exec answers with another Execution than the one the emit callback appends to: what a completed action emitted is lost")
+	}
+	if n == 0 {
+		c.R.Break(rule + ": no successful return found in Interpreter.Exec")
+	}
+}
+
+// c08WalkHandedBack: C08-R5 (sio).  Once RunMachine has installed the state a walk ended in, the walk is what it
+// answers: RunMachines drops the walk of a machine whose RunMachine answered an error, and with it everything the
+// completed actions emitted.
+func c08WalkHandedBack(c *Ctx, rule string) {
+	rm := c.P.Func("sio", "Crew", "RunMachine")
+	if rm == nil {
+		c.R.Break(rule + ": sio.(*Crew).RunMachine not found")
+		return
+	}
+	var applies []*ssa.Store
+	for _, f := range pkgClosure(rm) {
+		if prog.PkgOf(f) != "sio" {
+			continue
+		}
+		for _, st := range storesToPkg(f, "crew", "Machine", "State") {
+			if site := siteInFn(rm, st); site != nil {
+				applies = append(applies, st)
+			}
+		}
+	}
+	if len(applies) == 0 {
+		c.R.Break(rule + ": RunMachine does not install a state")
+		return
+	}
+	n := 0
+	for _, b := range rm.Blocks {
+		ret, ok := b.Instrs[len(b.Instrs)-1].(*ssa.Return)
+		if !ok || len(ret.Results) != 2 {
+			continue
+		}
+		reach := false
+		for _, st := range applies {
+			site := siteInFn(rm, st)
+			if site.Block() == b || flow.Reachable(site.Block(), b, nil) {
+				reach = true
+			}
+		}
+		if !reach {
+			continue
+		}
+		n++
+		bad := false
+		for _, d := range phiEdgesWithBlocks(ret.Results[0], b) {
+			if ssau.IsNilConst(d.v) && (flowsFrom(applies, rm, d.b)) {
+				bad = true
+			}
+		}
+		c.R.Check(!bad, rule, fmt.Sprintf("RunMachine: return #%d after the new state was installed hands back the walk", n), c.pos(ret), "no nil walk once the machine has moved", "RunMachine can answer without the walk after it has installed the state the walk ended in: RunMachines then drops the walk, so the machine has moved but what its actions emitted is neither reported nor fed back")
+	}
+	if n == 0 {
+		c.R.Break(rule + ": no return of RunMachine is reachable from the installation of the new state")
+	}
+}
+
+func flowsFrom(applies []*ssa.Store, fn *ssa.Function, b *ssa.BasicBlock) bool {
+	for _, st := range applies {
+		site := siteInFn(fn, st)
+		if site != nil && (site.Block() == b || flow.Reachable(site.Block(), b, nil)) {
+			return true
+		}
+	}
+	return false
+}
+
+// c11StoreIgnoresCtx: C11-R11 / C16.  In mcrew a timeout is routed like any other action error only if the routing is
+// also stored: by the time WriteState runs, the context under which the action was stopped has ended by definition.
+// The store's write path does not consult the context.
+func c11StoreIgnoresCtx(c *Ctx, rule string) {
+	ws := c.P.Func("cmd/mcrew", "Storage", "WriteState")
+	if ws == nil {
+		c.R.Break(rule + ": cmd/mcrew.(*Storage).WriteState not found")
+		return
+	}
+	var fns []*ssa.Function
+	seen := map[*ssa.Function]bool{}
+	for _, f := range append(ssau.WithAnon(ws), pkgClosure(ws)...) {
+		if prog.PkgOf(f) == "cmd/mcrew" && f.Blocks != nil && !seen[f] {
+			seen[f] = true
+			fns = append(fns, f)
+			for _, g := range ssau.WithAnon(f) {
+				if !seen[g] {
+					seen[g] = true
+					fns = append(fns, g)
+				}
+			}
+		}
+	}
+	bad := ""
+	for _, f := range fns {
+		c.R.Fn(fname(f))
+		ssau.Instrs(f, func(in ssa.Instruction) {
+			switch x := in.(type) {
+			case ssa.CallInstruction:
+				cm := x.Common()
+				if cm.IsInvoke() && cm.Value.Type().String() == "context.Context" {
+					switch cm.Method.Name() {
+					case "Err", "Done", "Deadline":
+						bad = "ctx." + cm.Method.Name() + "() at " + c.pos(in)
+					}
+				}
+			}
+		})
+	}
+	c.R.Check(bad == "", rule, "Storage.WriteState: the write does not depend on the state of the context", c.P.Pos(ws.Pos()), fmt.Sprintf("no use of the context's Err, Done or Deadline in %d functions of the write path", len(fns)), "the store consults the context ("+bad+") before or while writing: the routing of an action that was stopped by that very context (timeout, cancellation) is never stored, and Process then discards it — a timeout is not routed like any other action error")
+}
+
+// c13TextDecoded: C13-R1.  Under the "json" pattern syntax a pattern given as text means the JSON value it spells:
+// in the default pattern parser every successful return taken for a string under that syntax lies after the JSON
+// decoder was run on it (no shortcut that takes some texts as they stand).
+func c13TextDecoded(c *Ctx, rule string) {
+	var parser *ssa.Function
+	for _, f := range c.P.FuncsIn("core") {
+		if f.Parent() == nil || !strings.HasPrefix(f.Parent().Name(), "init") {
+			continue
+		}
+		if f.Signature.Params().Len() == 2 && f.Signature.Results().Len() == 2 && f.Signature.Params().At(0).Type().String() == "string" {
+			parser = f
+		}
+	}
+	if parser == nil {
+		c.R.Break(rule + ": the default pattern parser (a literal of core's initialiser) was not found")
+		return
+	}
+	c.R.Fn(fname(parser))
+	var decodes []ssa.Instruction
+	ssau.Instrs(parser, func(in ssa.Instruction) {
+		if ci, ok := in.(ssa.CallInstruction); ok {
+			n := ssau.CalleeName(ci)
+			if n == "encoding/json.Unmarshal" || n == "(*encoding/json.Decoder).Decode" {
+				decodes = append(decodes, in)
+			} else if h := ci.Common().StaticCallee(); h != nil && h.Blocks != nil && prog.PkgOf(h) == "core" {
+				// a helper that decodes
+				for _, g := range append([]*ssa.Function{h}, pkgClosure(h)...) {
+					ssau.Instrs(g, func(in2 ssa.Instruction) {
+						if c2, ok2 := in2.(ssa.CallInstruction); ok2 {
+							if n2 := ssau.CalleeName(c2); n2 == "encoding/json.Unmarshal" || n2 == "(*encoding/json.Decoder).Decode" {
+								decodes = append(decodes, in)
+							}
+						}
+					})
+				}
+			}
+		}
+	})
+	n := 0
+	for _, b := range parser.Blocks {
+		ret, ok := b.Instrs[len(b.Instrs)-1].(*ssa.Return)
+		if !ok || len(ret.Results) != 2 {
+			continue
+		}
+		for _, d := range phiEdgesWithBlocks(ret.Results[1], b) {
+			if !ssau.IsNilConst(d.v) {
+				continue
+			}
+			isJSON, isText := false, false
+			for _, ft := range flow.Expand(flow.FactsAt(d.b)) {
+				if bo, isB := ft.Cond.(*ssa.BinOp); isB && bo.Op == token.EQL && ft.True {
+					if s, isS := ssau.ConstString(bo.Y); isS && s == "json" && bo.X == ssa.Value(parser.Params[0]) {
+						isJSON = true
+					}
+				}
+				if ex, isEx := ft.Cond.(*ssa.Extract); isEx && ex.Index == 1 && ft.True {
+					if ta, isTA := ex.Tuple.(*ssa.TypeAssert); isTA && ta.X == ssa.Value(parser.Params[1]) && ta.AssertedType.String() == "string" {
+						isText = true
+					}
+				}
+			}
+			if !isJSON || !isText {
+				continue
+			}
+			n++
+			after := false
+			for _, dc := range decodes {
+				if dc.Block() == d.b || dc.Block().Dominates(d.b) {
+					after = true
+				}
+			}
+			c.R.Check(after, rule, fmt.Sprintf("DefaultPatternParser: success #%d for a text under the json syntax comes after the decoder", n), c.pos(ret), "json.Unmarshal dominates the return", "under the json pattern syntax some pattern texts are taken as they stand instead of being decoded: the same pattern written with another layout (leading white space, say) becomes a string constant that matches nothing")
+		}
+	}
+	if n == 0 {
+		c.R.Break(rule + ": no successful return for a text under the json syntax found in the default pattern parser")
+	}
+}
+
+// c19TimeoutArmedOnce: C19-R8.  "Fails when an expected message never arrives before the timeout": a step's timeout
+// runs from the start of the step.  The timer (or timeout channel, or deadline context) that is made from the step's
+// Timeout is made once per step: directly in the loop over the session's steps, not in a loop inside it, and not in a
+// function literal that is called from such an inner loop (which would re-arm it on every pass).
+func c19TimeoutArmedOnce(c *Ctx, rule string, run *ssa.Function) {
+	loops := flow.Loops(run)
+	// the loop over the steps: the outermost loop that contains the arming call
+	outermost := func(b *ssa.BasicBlock) *flow.Loop {
+		var out *flow.Loop
+		for _, l := range loops {
+			if l.Blocks[b] && (out == nil || len(l.Blocks) > len(out.Blocks)) {
+				out = l
+			}
+		}
+		return out
+	}
+	isTimeout := func(v ssa.Value) bool {
+		for _, d := range deepDefs(v, ssau.WithAnon(run)) {
+			if ld, ok := d.(*ssa.UnOp); ok {
+				if _, fld, _, isF := ssau.FieldOf(ld.X); isF && strings.Contains(fld, "Timeout") {
+					return true
+				}
+			}
+			if f, ok := d.(*ssa.Field); ok {
+				if _, fld, _, isF := ssau.FieldOf(f); isF && strings.Contains(fld, "Timeout") {
+					return true
+				}
+			}
+		}
+		return false
+	}
+	n := 0
+	for _, f := range ssau.WithAnon(run) {
+		ssau.Instrs(f, func(in ssa.Instruction) {
+			cl, ok := in.(*ssa.Call)
+			if !ok {
+				return
+			}
+			var dur ssa.Value
+			switch ssau.CalleeName(cl) {
+			case "time.After", "time.AfterFunc", "time.NewTimer", "time.Tick", "time.NewTicker":
+				dur = cl.Common().Args[0]
+			case "context.WithTimeout":
+				dur = cl.Common().Args[1]
+			default:
+				return
+			}
+			if !isTimeout(dur) {
+				return
+			}
+			n++
+			why := ""
+			// where is it executed: in Run itself, or through the literal(s) it sits in
+			sites := []ssa.Instruction{in}
+			for g := f; g != run && why == ""; g = g.Parent() {
+				var next []ssa.Instruction
+				if g.Parent() == nil {
+					why = "the arming call is in a function that is not a literal of Run"
+					break
+				}
+				// every use of the literal g in its parent
+				ssau.Instrs(g.Parent(), func(in2 ssa.Instruction) {
+					mc, isMC := in2.(*ssa.MakeClosure)
+					if !isMC || mc.Fn != ssa.Value(g) {
+						return
+					}
+					uses := append([]ssa.Instruction{}, ssau.Referrers(mc)...)
+					// a literal kept in a variable: the loads of that variable
+					for _, r := range ssau.Referrers(mc) {
+						if st, isSt := r.(*ssa.Store); isSt && st.Val == ssa.Value(mc) {
+							if al, isAl := st.Addr.(*ssa.Alloc); isAl {
+								for _, r2 := range ssau.Referrers(al) {
+									if ld, isLd := r2.(*ssa.UnOp); isLd {
+										uses = append(uses, ssau.Referrers(ld)...)
+									}
+								}
+							}
+						}
+					}
+					for _, u := range uses {
+						switch u.(type) {
+						case *ssa.Call, *ssa.Go, *ssa.Defer:
+							next = append(next, u)
+						}
+					}
+					// the literal sits in a loop itself and arms when called from its own body
+					if flow.InCycle(sites[0].Block()) {
+						why = "the arming call is inside a loop of the literal it sits in"
+					}
+				})
+				sites = next
+				if len(sites) == 0 && why == "" {
+					why = "the literal that arms the timeout is handed on as a value (its calls are not visible)"
+				}
+			}
+			if why == "" {
+				for _, s := range sites {
+					if s.Parent() != run {
+						// called from another literal of Run: judged where that literal runs (one level is what this code base uses)
+						if flow.InCycle(s.Block()) {
+							why = "armed from inside a loop (" + c.pos(s) + ")"
+						}
+						continue
+					}
+					L := flow.InnermostLoop(loops, s.Block())
+					if L != nil && L != outermost(s.Block()) {
+						why = "armed on every pass of a loop inside the step (" + c.pos(s) + "): the deadline moves each time the loop goes round"
+					}
+				}
+			}
+			c.R.Check(why == "", rule, fmt.Sprintf("Run: the step's timeout #%d is armed once per step", n), c.pos(in), "made in the loop over the steps itself, outside every loop inside it", why+": an expected message that arrives after the timeout (counted from the start of the step) can still satisfy the step, and the session passes")
+		})
+	}
+	if n == 0 {
+		c.R.Break(rule + ": no timer, timeout channel or deadline made from a step's Timeout found in Session.Run")
+	}
+}
